@@ -2,8 +2,23 @@
    Every later proof uses only these equations, never the shape of the generated bodies. *)
 From V Require Import Base.Bits Gen.WireOps Gen.Helpers Gen.Prims Spec.C07.
 
+(* masks: `x & ((1<<w)-1)`, `((1<<w)-1) & x` and `x % (1<<w)` are all the reduction modulo 2^w *)
+Lemma land_mask_umod x w : 0 <= w -> Z.land x (Z.shiftl 1 w - 1) = umod w x.
+Proof. intros. change (Z.land x (Z.shiftl 1 w - 1)) with (trunc w x). apply trunc_mod; lia. Qed.
+Lemma land_mask_umod' x w : 0 <= w -> Z.land (Z.shiftl 1 w - 1) x = umod w x.
+Proof. intros. rewrite Z.land_comm. apply land_mask_umod; lia. Qed.
+Lemma mod_shiftl_umod x w : 0 <= w -> x mod Z.shiftl 1 w = umod w x.
+Proof. intros. rewrite Z.shiftl_1_l. reflexivity. Qed.
+Lemma land_1 v : Z.land v 1 = v mod 2.
+Proof. change 1 with (Z.ones 1). rewrite Z.land_ones by lia. reflexivity. Qed.
+Lemma land_1' v : Z.land 1 v = v mod 2.
+Proof. rewrite Z.land_comm. apply land_1. Qed.
+
 Lemma Wire_put_umod w v : 0 <= w -> Wire_put w v = umod w v.
-Proof. intros. change (Wire_put w v) with (trunc w v). apply trunc_mod; lia. Qed.
+Proof.
+  intros. unfold Wire_put, py_shl; cbv zeta.
+  rewrite ?land_mask_umod, ?land_mask_umod', ?mod_shiftl_umod by lia. reflexivity.
+Qed.
 
 Lemma umod_range w v : 0 <= w -> 0 <= umod w v < 2 ^ w.
 Proof. intros. unfold umod. apply Z.mod_pos_bound, pow2_pos; lia. Qed.
@@ -48,89 +63,89 @@ Proof. intros. unfold umod. rewrite <- trunc_mod by lia. apply trunc_sgn; lia. Q
 Lemma sgn_eq w a : sgn w a = a - (if a <? 2 ^ (w - 1) then 0 else 1) * 2 ^ w.
 Proof. unfold sgn. destruct (a <? 2 ^ (w - 1)); lia. Qed.
 
-(* ---- one equation per primitive ---------------------------------------------------------------- *)
+(* ---- one equation per primitive ----------------------------------------------------------------
+   The proofs do not depend on the SHAPE of the generated bodies: [norm] unfolds the Python-operator layer, removes
+   let-bound locals, turns every way of writing a mask (`& ((1<<w)-1)`, `% (1<<w)`, either operand order, repeated
+   or nested) into [umod], `& 1` into `mod 2`, `<<`/`>>` into `* 2^n` / `/ 2^n`; [cmp_cases] case-splits on every
+   comparison instead of matching if/else syntactically (so `== 0` vs `!= 0`, `not`, swapped branches do not
+   matter); [fin] closes the remaining equation up to commutativity / ring identities. *)
+Ltac norm :=
+  unfold Wire_put, py_shl, py_shr, py_truth; cbv zeta;
+  rewrite ?land_mask_umod, ?land_mask_umod', ?mod_shiftl_umod by lia;
+  rewrite ?land_1, ?land_1';
+  rewrite ?Z.shiftl_1_l;
+  rewrite ?shiftl_mul, ?shiftr_div by lia;
+  rewrite ?umod_umod by lia.
+
+Ltac cmp_cases :=
+  repeat match goal with
+  | |- context [Z.eqb ?a ?b] => destruct (Z.eqb_spec a b)
+  | |- context [Z.leb ?a ?b] => destruct (Z.leb_spec a b)
+  | |- context [Z.ltb ?a ?b] => destruct (Z.ltb_spec a b)
+  | |- context [Z.gtb ?a ?b] => destruct (Z.gtb_spec a b)
+  | |- context [Z.geb ?a ?b] => destruct (Z.geb_spec a b)
+  end; cbn [negb andb orb].
+
+Ltac fin :=
+  try reflexivity; try lia; try (f_equal; ring); try (f_equal; lia);
+  try (f_equal; apply Z.land_comm); try (f_equal; apply Z.lor_comm); try (f_equal; apply Z.lxor_comm).
+
 Lemma AddCarryIn_eq wr a b ci : 0 <= wr -> AddCarryIn_propagate wr a b ci = umod wr (a + b + ci).
-Proof. intros. unfold AddCarryIn_propagate. cbv zeta. apply Wire_put_umod; lia. Qed.
+Proof. intros. unfold AddCarryIn_propagate. norm. fin. Qed.
 
 Lemma Sub_eq wr a b : 0 <= wr -> Sub_propagate wr a b = umod wr (a - b).
-Proof.
-  intros. unfold Sub_propagate. cbv zeta. rewrite Wire_put_umod by lia.
-  change (Z.land (a - b) (py_shl 1 wr - 1)) with (trunc wr (a - b)).
-  rewrite trunc_mod by lia. apply umod_umod; lia.
-Qed.
+Proof. intros. unfold Sub_propagate. norm. fin. Qed.
+
+Lemma SubBorrowIn_eq wr a b bi : 0 <= wr -> SubBorrowIn_propagate wr a b bi = umod wr (a - b - bi).
+Proof. intros. unfold SubBorrowIn_propagate. norm. fin. Qed.
 
 Lemma Mul_eq wr a b : 0 <= wr -> Mul_propagate wr a b = umod wr (a * b).
-Proof. intros. unfold Mul_propagate. cbv zeta. apply Wire_put_umod; lia. Qed.
+Proof. intros. unfold Mul_propagate. norm. fin. Qed.
 
 Lemma ZeroExtend_eq wr a : 0 <= wr -> ZeroExtend_propagate wr a = umod wr a.
-Proof. intros. unfold ZeroExtend_propagate. cbv zeta. apply Wire_put_umod; lia. Qed.
+Proof. intros. unfold ZeroExtend_propagate. norm. fin. Qed.
 
 Lemma Buf_eq wr a : 0 <= wr -> Buf_propagate wr a = umod wr a.
-Proof. intros. unfold Buf_propagate. cbv zeta. apply Wire_put_umod; lia. Qed.
+Proof. intros. unfold Buf_propagate. norm. fin. Qed.
 
 Lemma Constant_eq wr c : 0 <= wr -> Constant_propagate wr c = umod wr c.
-Proof. intros. unfold Constant_propagate. cbv zeta. apply Wire_put_umod; lia. Qed.
+Proof. intros. unfold Constant_propagate. norm. fin. Qed.
 
 Lemma Not_eq wr a : 0 <= wr -> Not_propagate wr a = umod wr (- a - 1).
-Proof.
-  intros. unfold Not_propagate. cbv zeta. rewrite Wire_put_umod by lia. f_equal; unfold Z.lnot; lia.
-Qed.
+Proof. intros. unfold Not_propagate. norm. try (unfold Z.lnot); fin. Qed.
 
 Lemma And2_eq wr a b : 0 <= wr -> And2_propagate wr a b = umod wr (Z.land a b).
-Proof. intros. unfold And2_propagate. cbv zeta. apply Wire_put_umod; lia. Qed.
+Proof. intros. unfold And2_propagate. norm. fin. Qed.
 
 Lemma Or2_eq wr a b : 0 <= wr -> Or2_propagate wr a b = umod wr (Z.lor a b).
-Proof. intros. unfold Or2_propagate. cbv zeta. apply Wire_put_umod; lia. Qed.
-
-Lemma land_1 v : Z.land v 1 = v mod 2.
-Proof. change 1 with (Z.ones 1). rewrite Z.land_ones by lia. reflexivity. Qed.
+Proof. intros. unfold Or2_propagate. norm. fin. Qed.
 
 Lemma Bit_eq wr bit a : 1 <= wr -> 0 <= bit -> Bit_propagate wr bit a = (a / 2 ^ bit) mod 2.
 Proof.
-  intros. unfold Bit_propagate. cbv zeta. rewrite Wire_put_umod by lia.
-  unfold py_shr. rewrite land_1, shiftr_div by lia.
+  intros. unfold Bit_propagate. norm.
   apply umod_small. assert (2 ^ 1 <= 2 ^ wr) by (apply pow2_le; lia).
   pose proof (Z.mod_pos_bound (a / 2 ^ bit) 2). lia.
 Qed.
 
 Lemma Range_eq wr hi lo a : 0 <= wr -> 0 <= lo -> lo <= hi + 1 ->
   Range_propagate wr hi lo a = umod wr (umod (hi - lo + 1) (a / 2 ^ lo)).
-Proof.
-  intros. unfold Range_propagate. cbv zeta. rewrite Wire_put_umod by lia. f_equal.
-  change (Z.land (py_shr a lo) (py_shl 1 (hi - lo + 1) - 1)) with (trunc (hi - lo + 1) (py_shr a lo)).
-  rewrite trunc_mod by lia. unfold py_shr. rewrite shiftr_div by lia. reflexivity.
-Qed.
+Proof. intros. unfold Range_propagate. norm. fin. Qed.
 
 Lemma Mux2_eq wr sel x y : 0 <= wr ->
   Mux2_propagate wr sel x y = umod wr (if sel mod 2 =? 1 then y else x).
-Proof.
-  intros. unfold Mux2_propagate. cbv zeta. rewrite land_1. unfold py_truth.
-  pose proof (Z.mod_pos_bound sel 2).
-  destruct (Z.eqb_spec (sel mod 2) 0); destruct (Z.eqb_spec (sel mod 2) 1); simpl; try lia;
-    apply Wire_put_umod; lia.
-Qed.
+Proof. intros. unfold Mux2_propagate. norm. cmp_cases; fin. Qed.
 
 Lemma Div_eq wr rnd a b : 0 <= wr -> b <> 0 -> Div_propagate wr rnd a b = umod wr (a / b).
-Proof.
-  intros. unfold Div_propagate. cbv zeta. destruct (Z.eqb_spec b 0); [lia|]. apply Wire_put_umod; lia.
-Qed.
+Proof. intros. unfold Div_propagate. norm. cmp_cases; fin. Qed.
 
 Lemma Mod_eq wr rnd a b : 0 <= wr -> b <> 0 -> Mod_propagate wr rnd a b = umod wr (a mod b).
-Proof.
-  intros. unfold Mod_propagate. cbv zeta. destruct (Z.eqb_spec b 0); [lia|]. apply Wire_put_umod; lia.
-Qed.
+Proof. intros. unfold Mod_propagate. norm. cmp_cases; fin. Qed.
 
 Lemma ShiftLeftConstant_eq wr n a : 0 <= wr -> 0 <= n -> ShiftLeftConstant_propagate wr n a = umod wr (a * 2 ^ n).
-Proof.
-  intros. unfold ShiftLeftConstant_propagate. cbv zeta. rewrite Wire_put_umod by lia.
-  unfold py_shl. rewrite shiftl_mul by lia. reflexivity.
-Qed.
+Proof. intros. unfold ShiftLeftConstant_propagate. norm. fin. Qed.
 
 Lemma ShiftRightConstant_eq wr n a : 0 <= wr -> 0 <= n -> ShiftRightConstant_propagate wr n a = umod wr (a / 2 ^ n).
-Proof.
-  intros. unfold ShiftRightConstant_propagate. cbv zeta. rewrite Wire_put_umod by lia.
-  unfold py_shr. rewrite shiftr_div by lia. reflexivity.
-Qed.
+Proof. intros. unfold ShiftRightConstant_propagate. norm. fin. Qed.
 
 (* ---- rotations by a constant ----------------------------------------------------------------- *)
 Lemma div_pow2_bound a w k : 0 <= k <= w -> 0 <= a < 2 ^ w -> 0 <= a / 2 ^ k < 2 ^ (w - k).
@@ -143,8 +158,9 @@ Qed.
 Lemma RotateLeftConstant_raw wa wr n a : 0 <= wr -> 0 <= n <= wa -> 0 <= a < 2 ^ wa ->
   RotateLeftConstant_propagate wa wr n a = umod wr (a * 2 ^ n + a / 2 ^ (wa - n)).
 Proof.
-  intros Hwr Hn Ha. unfold RotateLeftConstant_propagate. cbv zeta. rewrite Wire_put_umod by lia. f_equal.
-  unfold py_shl, py_shr. rewrite shiftr_div by lia.
+  intros Hwr Hn Ha. unfold RotateLeftConstant_propagate, Wire_put, py_shl, py_shr. cbv zeta.
+  rewrite ?land_mask_umod, ?land_mask_umod', ?mod_shiftl_umod, ?umod_umod by lia. f_equal.
+  rewrite shiftr_div by lia. try (rewrite (Z.lor_comm (a / _))). try rewrite (Z.add_comm (a / _)).
   apply lor_add_disjoint; [lia|].
   pose proof (div_pow2_bound a wa (wa - n) ltac:(lia) Ha) as Hb. replace (wa - (wa - n)) with n in Hb by lia. exact Hb.
 Qed.
@@ -152,8 +168,9 @@ Qed.
 Lemma RotateRightConstant_raw wa wr n a : 0 <= wr -> 0 <= n <= wa -> 0 <= a < 2 ^ wa ->
   RotateRightConstant_propagate wa wr n a = umod wr (a * 2 ^ (wa - n) + a / 2 ^ n).
 Proof.
-  intros Hwr Hn Ha. unfold RotateRightConstant_propagate. cbv zeta. rewrite Wire_put_umod by lia. f_equal.
-  unfold py_shl, py_shr. rewrite shiftr_div by lia. rewrite Z.lor_comm.
+  intros Hwr Hn Ha. unfold RotateRightConstant_propagate, Wire_put, py_shl, py_shr. cbv zeta.
+  rewrite ?land_mask_umod, ?land_mask_umod', ?mod_shiftl_umod, ?umod_umod by lia. f_equal.
+  rewrite shiftr_div by lia. try (rewrite (Z.lor_comm (a / _))).
   apply lor_add_disjoint; [lia|]. apply div_pow2_bound; lia.
 Qed.
 
@@ -206,22 +223,15 @@ Proof.
 Qed.
 
 Lemma signed_to_c2_eq v w : 0 <= w -> IntegerHelper_signed_to_c2 v w = spec_signed_to_c2 v w.
-Proof.
-  intros. unfold IntegerHelper_signed_to_c2, spec_signed_to_c2. cbv zeta.
-  change (Z.land v (py_shl 1 w - 1)) with (trunc w v). apply trunc_mod; lia.
-Qed.
+Proof. intros. unfold IntegerHelper_signed_to_c2, spec_signed_to_c2. norm. fin. Qed.
 
 Lemma c2_to_signed_eq v w : 1 <= w -> IntegerHelper_c2_to_signed v w = spec_c2_to_signed v w.
 Proof.
-  intros Hw. unfold IntegerHelper_c2_to_signed, spec_c2_to_signed. cbv zeta.
-  change (Z.land v (py_shl 1 w - 1)) with (trunc w v). rewrite trunc_mod by lia. fold (umod w v).
-  pose proof (umod_range w v ltac:(lia)) as Hr. set (x := umod w v) in *.
-  unfold py_shl. rewrite !Z.shiftl_1_l. rewrite land_pow2 by lia.
-  rewrite testbit_high by lia. unfold sgn.
+  intros Hw. unfold IntegerHelper_c2_to_signed, spec_c2_to_signed. norm.
+  pose proof (umod_range w v ltac:(lia)) as Hr. set (x := umod w v) in *. clearbody x.
+  rewrite ?land_pow2 by lia. rewrite ?testbit_high by lia. unfold sgn.
   pose proof (pow2_pos (w - 1) ltac:(lia)).
-  destruct (Z.leb_spec (2 ^ (w - 1)) x); destruct (Z.ltb_spec x (2 ^ (w - 1))); try lia.
-  - destruct (Z.gtb_spec (2 ^ (w - 1)) 0); [reflexivity | lia].
-  - reflexivity.
+  cmp_cases; fin.
 Qed.
 
 Lemma c2_to_signed_sgn v w : 1 <= w -> 0 <= v < 2 ^ w -> IntegerHelper_c2_to_signed v w = sgn w v.
@@ -229,12 +239,7 @@ Proof. intros. rewrite c2_to_signed_eq by lia. unfold spec_c2_to_signed. rewrite
 
 Lemma SignedMul_eq wa wb wr a b : 1 <= wa -> 1 <= wb -> 0 <= wr -> 0 <= a < 2 ^ wa -> 0 <= b < 2 ^ wb ->
   SignedMul_propagate wa wb wr a b = umod wr (sgn wa a * sgn wb b).
-Proof.
-  intros. unfold SignedMul_propagate. cbv zeta. rewrite !c2_to_signed_sgn by lia.
-  rewrite Wire_put_umod by lia.
-  change (Z.land (sgn wa a * sgn wb b) (py_shl 1 wr - 1)) with (trunc wr (sgn wa a * sgn wb b)).
-  rewrite trunc_mod by lia. apply umod_umod; lia.
-Qed.
+Proof. intros. unfold SignedMul_propagate. norm. rewrite !c2_to_signed_sgn by lia. fin. Qed.
 
 (* SignExtend: the loop ORs the high bit into positions wa .. wr-1 *)
 Lemma sext_loop hb wa n v : 0 <= wa -> 0 <= hb <= 1 -> 0 <= v < 2 ^ wa ->
